@@ -489,9 +489,13 @@ def null_from(
     node: int,
 ) -> list[int]:
     result = []
+    seen = set()
 
     def scan(n: int) -> None:
         nonlocal result
+        if n in seen:
+            return
+        seen.add(n)
         edges = nfa[n]
         if len(edges) == 1 and not edges[0].get("term"):
             return scan(cast(int, edges[0]["to"]))
